@@ -15,12 +15,25 @@ TRUSTED = ["Coq 8.16.1 kernel; no axioms", "POSIX: bind on a listening address i
 RULE = ("rounds: holder API in {run, checkpoint update, checkpoint delete, out delete}, 2-6 contenders with random APIs and start offsets 0-300 ms, holder end in {exit, failing run, SIGKILL}; "
         "plus orphan rounds (run killed by SIGKILL/SIGTERM while its command sleeps 2.5 s, next invocation at once), simultaneous-start rounds of 3-6 processes and brief-hold rounds (holder parked 300-800 ms, one contender with -v whose 'Acquiring lock' timestamp is compared with the tenure); non-trivial = every round (>=2 contenders); distinct by round parameters")
 
-CFG = {"targets": [{"path": "a"}, {"path": "b", "uses": ["a"]}]}
+CFG = {"targets": [{"path": "a"}, {"path": "b", "uses": ["a"]}], "sequences": {"all": ["build"]}}
 APIS = {"run": ["run", "-c", "build"], "checkpoint_update": ["checkpoint", "update"], "checkpoint_delete": ["checkpoint", "delete"], "out_delete": ["out", "delete", "--all"]}
+# the same four APIs in their other argument shapes (contenders are drawn from both tables)
+VARIANTS = {"checkpoint_update_id": ["checkpoint", "update", "--id", "0123456789abcdef0123456789abcdef01234567"],
+            "checkpoint_update_pending": ["checkpoint", "update", "--pending"],
+            "checkpoint_update_id_pending": ["checkpoint", "update", "--id", "0123456789abcdef0123456789abcdef01234567", "--pending"],
+            "run_targets": ["run", "-c", "build", "-t", "a"], "run_deps": ["run", "-c", "build", "-t", "b", "--deps"], "run_sequence": ["run", "-s", "all"],
+            "run_undefined_command": ["run", "-c", "nosuchcommand"], "out_delete_plain": ["out", "delete"]}
+ALL_SHAPES = {**APIS, **VARIANTS}
+_deck = []
+def next_shape(rng):
+    """contenders are dealt from a shuffled deck of all shapes, so every shape contends at least once per run"""
+    if not _deck:
+        _deck.extend(sorted(ALL_SHAPES)); rng.shuffle(_deck)
+    return _deck.pop()
 
 def listening(port):
     hexp = "%04X" % port
-    for fn in ("/proc/net/tcp",):
+    for fn in ("/proc/net/tcp", "/proc/net/tcp6"):
         try:
             for line in open(fn).read().splitlines()[1:]:
                 f = line.split()
@@ -41,7 +54,7 @@ def snapshot(d):
 def spawn(rr, api, points=None):
     env = dict(os.environ); env.update(vlib.GIT_ENV); env.update(rr.env())
     if points: env["MONORAIL_VERIF_POINTS"] = points
-    return subprocess.Popen([vlib.BIN_MONORAIL, "-f", os.path.join(rr.repo, "Monorail.json")] + APIS[api], cwd=rr.repo, env=env,
+    return subprocess.Popen([vlib.BIN_MONORAIL, "-f", os.path.join(rr.repo, "Monorail.json")] + ALL_SHAPES[api], cwd=rr.repo, env=env,
                             stdout=subprocess.PIPE, stderr=subprocess.PIPE)
 
 def lock_error(stderr):
@@ -69,7 +82,7 @@ def holder_round(ctx, rng, holder_api, n_cont, end_kind):
         conts = []
         for i in range(n_cont):
             time.sleep(rng.random() * 0.3 / n_cont)
-            api = rng.choice(list(APIS)); conts.append((api, spawn(rr, api)))
+            api = next_shape(rng); conts.append((api, spawn(rr, api)))
         results = []
         for api, p in conts:
             try: so, se = p.communicate(timeout=20)
@@ -130,10 +143,10 @@ def brief_hold_round(ctx, rng, holder_api, hold_ms):
         if not listening(rr.lock_port):
             h.kill(); h.communicate(); ctx.record(case, True, False, False, True, detail={"what": "holder never bound the lock address"}); return
         t_listen = time.time()
-        api = rng.choice(["checkpoint_update", "checkpoint_delete", "out_delete", "run"])
+        api = rng.choice(list(ALL_SHAPES))
         before = snapshot(rr.out_dir())
         env = dict(os.environ); env.update(vlib.GIT_ENV); env.update(rr.env())
-        c = subprocess.Popen([vlib.BIN_MONORAIL, "-v", "-f", os.path.join(rr.repo, "Monorail.json")] + APIS[api], cwd=rr.repo, env=env, stdout=subprocess.PIPE, stderr=subprocess.PIPE)
+        c = subprocess.Popen([vlib.BIN_MONORAIL, "-v", "-f", os.path.join(rr.repo, "Monorail.json")] + ALL_SHAPES[api], cwd=rr.repo, env=env, stdout=subprocess.PIPE, stderr=subprocess.PIPE)
         last_held = t_listen
         while h.poll() is None and time.time() - t0 < 30:
             t = time.time()
@@ -189,6 +202,55 @@ def orphan_round(ctx, rng, end_kind):
     finally:
         rr.close()
 
+def multi_address_host():
+    """A host name that resolves to several bindable loopback addresses on this machine (typically `localhost` = ::1 + 127.0.0.1),
+    or None.  The lock address is then a SET of socket addresses, and holding the lock must mean holding all of them."""
+    import socket
+    for name in ([os.environ["VERIF_MULTI_HOST"]] if os.environ.get("VERIF_MULTI_HOST") else []) + ["localhost", "ip6-localhost", "localhost6", socket.gethostname()]:
+        try: infos = socket.getaddrinfo(name, 0, type=socket.SOCK_STREAM)
+        except OSError: continue
+        addrs = []
+        for fam, _, _, _, sa in infos:
+            if sa[0] in addrs: continue
+            try:
+                sk = socket.socket(fam, socket.SOCK_STREAM); sk.bind((sa[0], 0) if fam == socket.AF_INET else (sa[0], 0, 0, 0)); sk.close(); addrs.append(sa[0])
+            except OSError: pass
+        if len(addrs) >= 2: return name, addrs
+    return None
+
+def multi_address_round(ctx, rng):
+    found = multi_address_host()
+    if found is None:
+        ctx.count("multi_address_host_unavailable"); return
+    name, addrs = found
+    rr = runscen.RunRepo(ctx, CFG, commands=["build"])
+    try:
+        full = json.load(open(os.path.join(rr.repo, "Monorail.json")))
+        full["server"]["lock"]["host"] = name
+        json.dump(full, open(os.path.join(rr.repo, "Monorail.json"), "w"))
+        holder_api = rng.choice(list(APIS))
+        h = spawn(rr, holder_api, "after_lock_%s=sleep:1500" % holder_api)
+        t0 = time.time()
+        while not listening(rr.lock_port) and time.time() - t0 < 10: time.sleep(0.01)
+        time.sleep(0.1)
+        conts = [(a, spawn(rr, a)) for a in [next_shape(rng) for _ in range(3)]]
+        results = []
+        for api, p in conts:
+            try: so, se = p.communicate(timeout=20)
+            except subprocess.TimeoutExpired: p.kill(); so, se = p.communicate()
+            results.append({"api": api, "rc": p.returncode, "lock_error": lock_error(se)})
+        parked = h.poll() is None
+        try: h.communicate(timeout=60)
+        except subprocess.TimeoutExpired: h.kill(); h.communicate()
+        ok = parked and all(r["rc"] not in (0, None) and r["lock_error"] for r in results)
+        v = ctx.model.call("lock", 4, [[0, 0, 1]] + [[0, i + 1, 1] for i in range(3)], [i + 1 for i, r in enumerate(results) if r["rc"] != 0 and r["lock_error"]], [])
+        ctx.count("multi_address_host_round")
+        ctx.record({"multi_address_host": name, "addresses": addrs, "holder": holder_api}, True, bool(v[2]), ok, True,
+                   sample={"lock_host": name, "addresses": addrs, "contenders": [r["api"] for r in results], "exit_codes": [r["rc"] for r in results]},
+                   detail={"what": "the lock host resolves to several addresses: contenders must still be refused while the holder is alive", "results": results, "holder_parked": parked})
+    finally:
+        rr.close()
+
 def simultaneous_round(ctx, rng, n):
     rr = runscen.RunRepo(ctx, CFG, commands=["build"])
     try:
@@ -222,12 +284,14 @@ def run(ctx, scale):
             brief_hold_round(ctx, rng, api, rng.choice([300, 450, 600, 800]))
         for kind in ["sigkill", "sigterm"]:
             orphan_round(ctx, rng, kind)
+        multi_address_round(ctx, rng)
         for n in ([3, 5] if ctx.quick() else [3, 4, 5, 6]):
             simultaneous_round(ctx, rng, n)
 
 def replay(ctx, c):
     c = c.get("case", c)
-    if "orphan" in c: orphan_round(ctx, ctx.rng, c["orphan"])
+    if "multi_address_host" in c: multi_address_round(ctx, ctx.rng)
+    elif "orphan" in c: orphan_round(ctx, ctx.rng, c["orphan"])
     elif "brief_hold" in c: brief_hold_round(ctx, ctx.rng, c["brief_hold"], c["hold_ms"])
     elif "simultaneous" in c: simultaneous_round(ctx, ctx.rng, c["simultaneous"])
     else: holder_round(ctx, ctx.rng, c["holder"], c["contenders"], c["end"])
